@@ -9,8 +9,35 @@ FAMILIES = [('trees', 180, 5000, {}), ('mixed', 120, 3000, {}), ('untils', 60, 2
 MONITORS = ['C03']
 
 
+def d16_directed(ctx):
+    """known finding D16 (needs an async generator bound to a name, which the scenario language never does)"""
+    import usim
+    log = []
+
+    async def ticker():
+        it = usim.delay(2)
+        async for now in it:
+            log.append(now)
+            await usim.instant
+
+    async def other():
+        await (usim.time + 10)
+    case = {'directed': 'D16', 'program': 'it = delay(2); async for now in it: await instant  -- run(ticker(), other(), till=3)'}
+    try:
+        usim.run(ticker(), other(), till=3)
+    except RuntimeError as e:
+        if 'cannot reuse already awaited coroutine' in str(e):
+            ctx.fail(case, 'run() ended with coroutine misuse: %r' % e, finding='D16', family='directed')
+        else:
+            ctx.fail(case, 'run() ended with %r' % e, family='directed')
+    except BaseException as e:
+        ctx.fail(case, 'run() ended with %r' % e, family='directed')
+    ctx.count(case)
+
+
 def run(ctx):
     machine_prop.run(ctx, FAMILIES, MONITORS)
+    d16_directed(ctx)
 
 
 def search(ctx):
